@@ -39,11 +39,14 @@ class SW:
     def label_indices(self):
         return list(itertools.product(*[range(LABEL_SIZES[l]) for l in self.labels]))
 
-    def driver(self, name, sign=None):
+    def driver(self, name, sign=None, dtype="float"):
         data = []
         for idx in itertools.product(*[range(s) for s in self.shape]):
-            data.append(Rat.sym(f"{name}_{'_'.join(map(str, idx))}", sign))
-        return SArr(self.shape, data)
+            nm = f"{name}_{'_'.join(map(str, idx))}"
+            data.append(Rat.sym(nm, sign))
+            if dtype == "int":
+                S.INTEGER_SYMBOLS.add(nm)
+        return SArr(self.shape, data, dtype=dtype)
 
     def stock_array(self, name, values=None):
         kw = dict(dims=self.dims, name=name)
